@@ -18,7 +18,7 @@ POOLS = {
     "i": [0, 1, -1, 2, 7, 2**31, -2**31, 2**53, 2**53 + 1, 2**53 + 2, -(2**53 + 1), 2**63 - 1, 2**63 - 2, -2**63 + 1, -2**63,
           127, 128, -128, -129, 255, 256, 32767, 32768, -32768, 65535, 65536, 2**31 - 1, 2**32],     # width boundaries
     "b": [True, False],
-    "s": ["", "a", "b", "ab", "B", "é", "日本", "😀", " a", P49 + "a", P49 + "b", P49, "q" * 70],
+    "s": ["", "a", "b", "ab", "B", "é", "日本", "😀", " a", P49 + "a", P49 + "b", P49, "q" * 70, "a\x00", "a\x00b"],
     "u": ["", "a", "b", "ab", "B", "é", "日本", " a"],
     "d": [None, "1970-01-01", "1969-12-31", "2020-12-31", "2021-01-03", "2024-02-29", "0001-01-01", "9999-12-31"],
     "t": [None, "1970-01-01T00:00:00.000001", "1969-12-31T23:59:59", "2020-12-31T12:00:00",
@@ -37,7 +37,7 @@ POOLS = {
 # Small pools (2-3 distinct non-missing values) that make ties and duplicate keys the norm.
 TIGHT = {
     "f": [NAN, 0.0, -0.0, 1.0, INF], "i": [0, 1, 2**53, 2**53 + 1], "b": [True, False],
-    "s": ["", "a", "b", P49 + "a"], "u": ["", "a", "b"], "d": [None, "1970-01-01", "2020-12-31"],
+    "s": ["", "a", "b", P49 + "a", "a\x00"], "u": ["", "a", "b"], "d": [None, "1970-01-01", "2020-12-31"],
     "t": [None, "1970-01-01T00:00:00.000001", "2020-12-31T12:00:00"], "tm": POOLS["tm"][:3], "ts": POOLS["ts"][:3],
     "td": [None, 0, 1], "o": [None, "a", "b"], "oi": [None, 1, 2], "ob": [None, True, False], "y": ["a", "b"],
     "i8": [-128, 0, 127], "u8": [0, 1, 255],
